@@ -210,6 +210,9 @@ func validateUnionCases(env *Environment, errorSink *validation.ErrorSink) *Envi
 				// Check the referenced type with the type arguments provided
 				self.Visit(t.ResolvedDefinition, true)
 			}
+
+			// The type arguments themselves are written here and nowhere else
+			self.VisitChildren(node, visitingReference)
 		default:
 			self.VisitChildren(node, visitingReference)
 		}
